@@ -5,8 +5,9 @@
     Units::compatible, updateUnitMultiplier, Units::scalingFactor, Units::equivalent; validator.cpp: unitsAreEquivalent,
     updateBaseUnitCount; analyser.cpp: updateUnitsMap, updateUnitsMultiplier) over Q, multipliers as exact powers of ten
     (their log10 is the rational carried by the model), fuelled recursion, tables regenerated from /repo/src.
-    [fx : fixes] selects the code as it is ([unfixed]) or with the two proposed repairs; theorems quantify over [fx]
-    where they hold for both.  A scaling factor is [FPow q] = 10^q or [FZero] = 0.0. *)
+    [fx : fixes] selects, per repair (fx_import 64d2ee4, fx_std 40ad4ac, fx_pop 94d567f), the code before or after it
+    ([unfixed] = before all three, [all_fixed] = /repo now); theorems quantify over [fx] where they hold for every setting,
+    name the switch they need otherwise, and the [_refuted] witnesses are stated for [unfixed].  A scaling factor is [FPow q] = 10^q or [FZero] = 0.0. *)
 From Coq Require Import String List Bool ZArith QArith Permutation Relations.
 From LC Require Import UnitsDefs UnitsSpec UnitsProofs.
 From LCGen Require Import UnitTables PrefixTable.
@@ -29,7 +30,7 @@ Print Assumptions C08_std_units_over_base.
 
 (** ** compatible is an equivalence relation on defined units *)
 
-Theorem C08_compatible_refl : forall fx f w a, is_defined f w (fst a) (snd a) = Ok true ->
+Theorem C08_compatible_refl : forall fx f w a, is_defined fx f w (fst a) (snd a) = Ok true ->
   compatible fx f w (Some a) (Some a) = Ok true.
 Proof. exact UnitsProofs.compatible_refl. Qed.
 Print Assumptions C08_compatible_refl.
@@ -45,13 +46,13 @@ Print Assumptions C08_compatible_trans.
 
 (** ... and it only ever holds between two non-null, defined units. *)
 Theorem C08_compatible_true_defined : forall fx f w a b, compatible fx f w a b = Ok true ->
-  exists a' b', a = Some a' /\ b = Some b' /\ is_defined f w (fst a') (snd a') = Ok true /\ is_defined f w (fst b') (snd b') = Ok true.
+  exists a' b', a = Some a' /\ b = Some b' /\ is_defined fx f w (fst a') (snd a') = Ok true /\ is_defined fx f w (fst b') (snd b') = Ok true.
 Proof. exact UnitsProofs.compatible_true_defined. Qed.
 Print Assumptions C08_compatible_true_defined.
 
 (** A defined units always has an exponent map (the gate in Units::compatible excludes every null dereference and the
     fuel that sufficed for isDefined suffices for the map). *)
-Theorem C08_defined_map_ok : forall fx f w u, is_defined f w (fst u) (snd u) = Ok true ->
+Theorem C08_defined_map_ok : forall fx f w u, is_defined fx f w (fst u) (snd u) = Ok true ->
   exists m, define_units_map fx f w u = Ok m.
 Proof. exact UnitsProofs.defined_map_ok. Qed.
 Print Assumptions C08_defined_map_ok.
@@ -61,7 +62,7 @@ Print Assumptions C08_defined_map_ok.
 (** The comparison of Units::compatible (sizes, then entry by entry) decides extensional equality of the two maps
     returned by defineUnitsMap, from which zero exponents and "dimensionless" have been erased. *)
 Theorem C08_compatible_iff_same_maps : forall fx f w a b ma mb,
-  is_defined f w (fst a) (snd a) = Ok true -> is_defined f w (fst b) (snd b) = Ok true ->
+  is_defined fx f w (fst a) (snd a) = Ok true -> is_defined fx f w (fst b) (snd b) = Ok true ->
   define_units_map fx f w a = Ok ma -> define_units_map fx f w b = Ok mb ->
   (compatible fx f w (Some a) (Some b) = Ok true <-> forall k, get ma k == get mb k).
 Proof. exact UnitsProofs.compatible_iff_same_maps. Qed.
@@ -70,13 +71,13 @@ Print Assumptions C08_compatible_iff_same_maps.
 (** With the import exponent passed on (F6), or in a world without imports, that map is the dimension [dim] of the units
     (UnitsSpec.v: product of children, child = referenced units ^ exponent, an import is the imported units). *)
 Theorem C08_map_is_dimension : forall fx f w u, fx_import fx = true \/ import_free w ->
-  is_defined f w (fst u) (snd u) = Ok true ->
+  is_defined fx f w (fst u) (snd u) = Ok true ->
   exists m, define_units_map fx f w u = Ok m /\ forall k, k <> "dimensionless" -> get m k == dim f w (fst u) (snd u) k.
 Proof. exact UnitsProofs.map_is_dimension. Qed.
 Print Assumptions C08_map_is_dimension.
 
 Theorem C08_compatible_iff_same_exponents : forall fx f w a b, fx_import fx = true \/ import_free w ->
-  is_defined f w (fst a) (snd a) = Ok true -> is_defined f w (fst b) (snd b) = Ok true ->
+  is_defined fx f w (fst a) (snd a) = Ok true -> is_defined fx f w (fst b) (snd b) = Ok true ->
   (compatible fx f w (Some a) (Some b) = Ok true <->
    forall k, k <> "dimensionless" -> dim f w (fst a) (snd a) k == dim f w (fst b) (snd b) k).
 Proof. exact UnitsProofs.compatible_iff_same_exponents. Qed.
@@ -86,7 +87,7 @@ Print Assumptions C08_compatible_iff_same_exponents.
     C08-import-exponent-dropped). *)
 Theorem C08_compatible_iff_same_exponents_refuted :
   exists f w a b,
-    is_defined f w (fst a) (snd a) = Ok true /\ is_defined f w (fst b) (snd b) = Ok true /\
+    is_defined unfixed f w (fst a) (snd a) = Ok true /\ is_defined unfixed f w (fst b) (snd b) = Ok true /\
     (forall k, k <> "dimensionless" -> dim f w (fst a) (snd a) k == dim f w (fst b) (snd b) k) /\
     compatible unfixed f w (Some a) (Some b) = Ok false.
 Proof. exact UnitsProofs.compatible_iff_same_exponents_refuted. Qed.
@@ -102,39 +103,68 @@ Theorem C08_map_perm_invariant : forall fx f w mi0 n0 l l' u m,
 Proof. exact UnitsProofs.map_perm_invariant. Qed.
 Print Assumptions C08_map_perm_invariant.
 
-(** Hence compatible is unchanged too — as long as Units::isDefined() still answers true ... *)
+(** Hence compatible is unchanged too.  Since 94d567f (fx_pop) this holds outright: *)
+Theorem C08_compatible_perm_invariant : forall fx f w w' a b, fx_pop fx = true -> perm_world w w' ->
+  (compatible fx f w a b = Ok true <-> compatible fx f w' a b = Ok true).
+Proof. exact UnitsProofs.compatible_perm_invariant. Qed.
+Print Assumptions C08_compatible_perm_invariant.
+
+Theorem C08_compatible_perm_set_units : forall fx f w mi0 n0 l l' a b, fx_pop fx = true ->
+  lookup w mi0 n0 = Some (Defs l) -> Permutation l l' ->
+  (compatible fx f w a b = Ok true <-> compatible fx f (set_units w mi0 n0 (Defs l')) a b = Ok true).
+Proof. exact UnitsProofs.compatible_perm_set_units. Qed.
+Print Assumptions C08_compatible_perm_set_units.
+
+(** For every setting of the switches it holds as long as Units::isDefined() still answers true in the permuted world ... *)
 Theorem C08_compatible_perm_partial : forall fx f w w' a b, perm_world w w' ->
   compatible fx f w (Some a) (Some b) = Ok true ->
-  is_defined f w' (fst a) (snd a) = Ok true -> is_defined f w' (fst b) (snd b) = Ok true ->
+  is_defined fx f w' (fst a) (snd a) = Ok true -> is_defined fx f w' (fst b) (snd b) = Ok true ->
   compatible fx f w' (Some a) (Some b) = Ok true.
 Proof. exact UnitsProofs.compatible_perm_partial. Qed.
 Print Assumptions C08_compatible_perm_partial.
 
-(** ... which it does not always: the import history of performTestWithHistory is never popped, so after an import of an
-    import a later imported child looks like an import cycle.  u = A.B is "undefined", u = B.A is defined
-    (finding C08-import-history-false-cycle).  The unconditional statement "compatible fx f w a b = compatible fx f w' a b
-    for every permutation" is therefore false on the code as it is, and is not claimed. *)
+(** ... which, before 94d567f, it did not always: the import history of performTestWithHistory was never popped, so after an
+    import of an import a later imported child looked like an import cycle: u = A.B "undefined", u = B.A defined
+    (finding C08-import-history-false-cycle, fixed). *)
 Theorem C08_compatible_perm_refuted :
-  exists fx f w mi n l l' u,
+  exists f w mi n l l' u,
     lookup w mi n = Some (Defs l) /\ Permutation l l' /\
-    compatible fx f (set_units w mi n (Defs l')) (Some u) (Some u) = Ok true /\
-    compatible fx f w (Some u) (Some u) = Ok false /\
+    compatible unfixed f (set_units w mi n (Defs l')) (Some u) (Some u) = Ok true /\
+    compatible unfixed f w (Some u) (Some u) = Ok false /\
     defined_sem f w (fst u) (snd u) = Ok true.
 Proof. exact UnitsProofs.compatible_perm_refuted. Qed.
 Print Assumptions C08_compatible_perm_refuted.
 
-(** isDefined() is sound w.r.t. "every reference resolves" (defined_sem), complete without imports, not complete with them. *)
-Theorem C08_is_defined_sound : forall f w mi name, is_defined f w mi name = Ok true -> defined_sem f w mi name = Ok true.
+(** isDefined() is sound w.r.t. "every reference resolves" (defined_sem) for every setting; since 94d567f it is also complete
+    (hence exactly defined_sem) whenever the models import from one another along a DAG — mutual imports between models are
+    refused by the url-based cycle detection (C08_is_defined_needs_model_dag), as CellML demands; before, it was complete only
+    without imports (C08_is_defined_complete_partial / _refuted). *)
+Theorem C08_is_defined_sound : forall fx f w mi name, is_defined fx f w mi name = Ok true -> defined_sem f w mi name = Ok true.
 Proof. exact UnitsProofs.is_defined_sound. Qed.
 Print Assumptions C08_is_defined_sound.
 
-Theorem C08_is_defined_complete_partial : forall f w mi n, import_free w ->
-  defined_sem f w mi n = Ok true -> is_defined f w mi n = Ok true.
+Theorem C08_is_defined_complete_partial : forall fx f w mi n, import_free w ->
+  defined_sem f w mi n = Ok true -> is_defined fx f w mi n = Ok true.
 Proof. exact UnitsProofs.is_defined_complete_partial. Qed.
 Print Assumptions C08_is_defined_complete_partial.
 
+Theorem C08_is_defined_complete : forall fx f w mi n, fx_pop fx = true -> model_dag w ->
+  defined_sem f w mi n = Ok true -> is_defined fx f w mi n = Ok true.
+Proof. exact UnitsProofs.is_defined_complete. Qed.
+Print Assumptions C08_is_defined_complete.
+
+Theorem C08_is_defined_iff : forall fx f w mi n, fx_pop fx = true -> model_dag w ->
+  (is_defined fx f w mi n = Ok true <-> defined_sem f w mi n = Ok true).
+Proof. exact UnitsProofs.is_defined_iff. Qed.
+Print Assumptions C08_is_defined_iff.
+
+Example C08_is_defined_needs_model_dag :
+  defined_sem 6 w_mutual 0 "u" = Ok true /\ is_defined all_fixed 6 w_mutual 0 "u" = Ok false.
+Proof. exact UnitsProofs.is_defined_needs_model_dag. Qed.
+Print Assumptions C08_is_defined_needs_model_dag.
+
 Theorem C08_is_defined_complete_refuted :
-  exists f w mi n, defined_sem f w mi n = Ok true /\ is_defined f w mi n = Ok false.
+  exists f w mi n, defined_sem f w mi n = Ok true /\ is_defined unfixed f w mi n = Ok false.
 Proof. exact UnitsProofs.is_defined_complete_refuted. Qed.
 Print Assumptions C08_is_defined_complete_refuted.
 
@@ -157,7 +187,7 @@ Print Assumptions C08_dim_import.
 
 (** The code as it is: the map of I2 = (imported I)^2 has metre^1, its dimension is metre^2. *)
 Theorem C08_map_indirection_refuted :
-  exists f w u m, is_defined f w (fst u) (snd u) = Ok true /\ define_units_map unfixed f w u = Ok m /\
+  exists f w u m, is_defined unfixed f w (fst u) (snd u) = Ok true /\ define_units_map unfixed f w u = Ok m /\
                   ~ get m "metre" == dim f w (fst u) (snd u) "metre".
 Proof. exact UnitsProofs.map_indirection_refuted. Qed.
 Print Assumptions C08_map_indirection_refuted.
@@ -192,8 +222,8 @@ Proof. exact UnitsProofs.factor_zero_null. Qed.
 Print Assumptions C08_factor_zero_null.
 
 Theorem C08_factor_zero_undefined : forall fx f w a b,
-  is_defined f w (fst a) (snd a) = Ok false \/
-  (is_defined f w (fst a) (snd a) = Ok true /\ is_defined f w (fst b) (snd b) = Ok false) ->
+  is_defined fx f w (fst a) (snd a) = Ok false \/
+  (is_defined fx f w (fst a) (snd a) = Ok true /\ is_defined fx f w (fst b) (snd b) = Ok false) ->
   scaling_factor fx f w (Some a) (Some b) = Ok FZero.
 Proof. exact UnitsProofs.factor_zero_undefined. Qed.
 Print Assumptions C08_factor_zero_undefined.
@@ -270,7 +300,7 @@ Print Assumptions C08_three_disagree_exponent_one_refuted.
 (** The validator's verdict (status of unitsAreEquivalent) for two defined units of a model is Units::compatible, in a world
     without imports (the validator does not look into imported units) whose units are not named after standard units. *)
 Theorem C08_val_verdict_agrees_partial : forall fx f w mi n1 n2, import_free w -> nonstd_names w ->
-  is_defined f w mi n1 = Ok true -> is_defined f w mi n2 = Ok true ->
+  is_defined fx f w mi n1 = Ok true -> is_defined fx f w mi n2 = Ok true ->
   exists st q, val_equiv f w mi n1 n2 = Ok (st, q) /\
                (st = true <-> compatible fx f w (Some (mi, n1)) (Some (mi, n2)) = Ok true).
 Proof. exact UnitsProofs.val_verdict_agrees_partial. Qed.
@@ -285,7 +315,7 @@ Print Assumptions C08_val_verdict_agrees_partial.
 Theorem C08_reducers_terminate : forall fx f w, acyclic w -> (world_size w < f)%nat ->
   (forall a b, compatible fx f w a b <> OutOfFuel /\ scaling_factor fx f w a b <> OutOfFuel /\ equivalent fx f w a b <> OutOfFuel) /\
   (forall mi n1 n2, val_equiv f w mi n1 n2 <> OutOfFuel /\ ana_equiv f w mi n1 n2 <> OutOfFuel) /\
-  (forall mi n, is_base f w mi n <> OutOfFuel /\ is_defined f w mi n <> OutOfFuel /\
+  (forall mi n, is_base f w mi n <> OutOfFuel /\ is_defined fx f w mi n <> OutOfFuel /\
                 define_units_map fx f w (mi, n) <> OutOfFuel /\ mult_go fx f w mi n <> OutOfFuel).
 Proof. exact UnitsProofs.reducers_terminate. Qed.
 Print Assumptions C08_reducers_terminate.
@@ -297,6 +327,13 @@ Example C08_nonvacuous :
   equivalent unfixed 5 w_mm (Some (0%nat, "mm2")) (Some (0%nat, "mm2")) = Ok true /\
   agree_cond 5 w_mm 0 "mm" = true /\ si_cond 5 w_mm 0 "mm" = true /\ imports_scale_ok unfixed 5 w_mm 0 "mm" = true /\
   acyclic w_mm /\ (world_size w_mm < 5)%nat /\ import_free w_mm /\ no_bare_std_scaled w_mm /\
-  is_defined 5 w_import 0 "I2" = Ok true.
+  is_defined unfixed 5 w_import 0 "I2" = Ok true.
 Proof. exact UnitsProofs.nonvacuous. Qed.
 Print Assumptions C08_nonvacuous.
+
+Example C08_nonvacuous_pop :
+  model_dag (w_order false) /\ fx_pop all_fixed = true /\
+  defined_sem 6 (w_order false) 0 "u" = Ok true /\ is_defined all_fixed 6 (w_order false) 0 "u" = Ok true /\
+  is_defined unfixed 6 (w_order false) 0 "u" = Ok false.
+Proof. exact UnitsProofs.nonvacuous_pop. Qed.
+Print Assumptions C08_nonvacuous_pop.
